@@ -22,11 +22,13 @@ RULE = ("seeded requests: method tokens, origin-form targets and the 'target' ex
         "(bad method / target / header name / header value); distinct+non-trivial = (proto, legal?, illegal kind, "
         "target form, host supplied?, framing supplied, body kind, position in sequence); the URL is passed as str, bytes or one "
         "httpcore.URL object kept by the caller for the whole sequence, and the caller's URL / header list / extensions must "
-        "be unchanged after every call")
+        "be unchanged after every call; origins named by DNS name / IPv4 / IPv6 literal on the default or another port, "
+        "HTTP/1.1 also through a forwarding proxy (absolute-form target compared with the URL)")
 ASSUMPTIONS = ["HTTP/1.1 wire decoded by the harness parser (no h11); HTTP/2 by the h2 library in the server role",
                "identical duplicate Content-Length values may be merged (protocol-equivalent)"]
 REQUIRED = ["requests_legal", "oracle_wire", "requests_illegal", "oracle_illegal", "reuse_checked"]
 
+HOSTS = ["o.test", "2001:db8::3", "o.test", "10.2.3.4", "o.test"]
 METHODS = ["GET", "POST", "PUT", "DELETE", "PATCH", "OPTIONS", "FOO", "M-SEARCH", "get", "X_Y.Z!"]
 HNAMES = ["Accept", "accept", "X-A", "x-a", "X-B", "Cookie", "Cookie", "User-Agent", "X-Custom-Header", "Te-x"]
 
@@ -150,7 +152,7 @@ def run_case(case):
     h2 = proto == "h2"
     viol = []
     cnt = {"oracle_caller_objects": 0, "requests_legal": 0, "requests_illegal": 0, "oracle_wire": 0, "oracle_illegal": 0, "reuse_checked": 0,
-           "body_bytes_checked": 0, "sequences": 0}
+           "body_bytes_checked": 0, "sequences": 0, "via_forward_proxy": 0, "direct": 0, "ip_literal_hosts": 0, "non_default_port": 0}
     sigs = set()
     sample = {}
 
@@ -163,15 +165,31 @@ def run_case(case):
         for seq in case["seqs"]:
             cnt["sequences"] += 1
             net = simnet.Net()
-            origin = endpoints.Origin(net, "o.test", 443 if h2 else 80, tls=h2, alpn=["h2"] if h2 else None)
-            pool = mk_pool(flavor, net, http2=h2)
+            seq_no += 1
+            # the origin is named by a DNS name, an IPv4 or an IPv6 literal, on the default or another port, and (HTTP/1.1)
+            # reached directly or through a forwarding proxy (absolute-form targets)
+            host = HOSTS[(seq_no + case["seed"]) % len(HOSTS)]
+            uhost = f"[{host}]" if ":" in host else host
+            dflt_port = 443 if h2 else 80
+            port = dflt_port if (seq_no + case["seed"] // 7) % 3 else dflt_port + 8000
+            via_proxy = (not h2) and (seq_no + case["seed"] // 3) % 4 == 0
+            base = uhost if port == dflt_port else f"{uhost}:{port}"
+            origin = endpoints.Origin(net, host, port, tls=h2, alpn=["h2"] if h2 else None)
+            if via_proxy:
+                px = endpoints.HTTPProxy(net, "proxy.test", 3128, origins=[origin])
+                pool = mk_pool(flavor, net, proxy={"url": "http://proxy.test:3128"}, http2=h2)
+                seq = [dict(x, target_ext=None) if x["target_ext"] is not None and not x["illegal"] else x for x in seq]
+            else:
+                pool = mk_pool(flavor, net, http2=h2)
+            cnt["via_forward_proxy" if via_proxy else "direct"] += 1
+            cnt["ip_literal_hosts"] += host != "o.test"
+            cnt["non_default_port"] += port != dflt_port
             api = API(flavor, pool, net)
             scheme = "https" if h2 else "http"
             legal_seen = 0
             pending_illegal = None
-            seq_no += 1
             shared_path = next((x["path"] for x in seq if not x["illegal"]), "/")
-            shared_url = httpcore.URL(f"{scheme}://o.test{shared_path}")
+            shared_url = httpcore.URL(f"{scheme}://{base}{shared_path}")
             for pos, q in enumerate(seq):
                 parts = body_bytes(q)
                 if q["body_kind"] == "none":
@@ -188,12 +206,13 @@ def run_case(case):
                     q = dict(q, path=shared_path)
                     url_arg = shared_url
                 elif url_form == "bytes":
-                    url_arg = f"{scheme}://o.test{q['path']}".encode("latin1")
+                    url_arg = f"{scheme}://{base}{q['path']}".encode("latin1")
                 else:
-                    url_arg = f"{scheme}://o.test{q['path']}"
+                    url_arg = f"{scheme}://{base}{q['path']}"
                 hdr_arg = [(k.encode("latin1"), x.encode("latin1")) for k, x in q["headers"]]
                 snap = (bytes(shared_url), shared_url.target, list(hdr_arg), copy.deepcopy(ext))
-                before_reqs = len(origin.requests)
+                wire_reqs = px.forwards if via_proxy else origin.requests
+                before_reqs = len(wire_reqs)
                 before_written = sum(t.written for t in net.transports)
                 before_anom = len(origin.anomalies)
 
@@ -227,7 +246,7 @@ def run_case(case):
                     cnt["requests_illegal"] += 1
                     cnt["oracle_illegal"] += 1
                     sigs.add(f"{proto}|illegal|{q['illegal']}|pos{min(pos, 1)}")
-                    new_reqs = origin.requests[before_reqs:]
+                    new_reqs = wire_reqs[before_reqs:]
                     wrote = sum(t.written for t in net.transports) - before_written
                     leaked = bool(new_reqs) or (not h2 and wrote > 0) or len(origin.anomalies) > before_anom
                     if out.kind == "ok":
@@ -241,12 +260,12 @@ def run_case(case):
                           f"request rejected ({out!r}) but {wrote} bytes / {len(new_reqs)} request heads reached the wire", ctx)
                     continue
                 cnt["requests_legal"] += 1
-                sigs.add(f"{proto}|legal|{form}|host:{q['host_kind']}|fr:{q['framing_kind']}|{q['body_kind']}|pos{min(pos, 1)}")
+                sigs.add(f"{proto}|legal|{form}|{'px' if via_proxy else 'direct'}|{'v6' if ':' in host else 'v4' if host[0].isdigit() else 'dns'}|host:{q['host_kind']}|fr:{q['framing_kind']}|{q['body_kind']}|pos{min(pos, 1)}")
                 if out.kind != "ok":
                     v(f"legal-request-failed:{proto}:" + (exc_name(out.exc) if out.kind == "exc" else out.kind),
                       f"legal request not answered: {out!r}", ctx)
                     break
-                new_reqs = origin.requests[before_reqs:]
+                new_reqs = wire_reqs[before_reqs:]
                 if len(new_reqs) != 1:
                     v("wire-request-count", f"{len(new_reqs)} request heads on the wire for one call", ctx)
                     break
@@ -255,7 +274,12 @@ def run_case(case):
                 if pos > 0 and legal_seen > 0:
                     cnt["reuse_checked"] += 1
                 legal_seen += 1
-                method, target, hs, body = expected_h1(q, scheme, "o.test", None)
+                method, target, hs, body = expected_h1(q, scheme, uhost, port)
+                if via_proxy:
+                    target = f"{scheme}://{base}".encode() + target
+                    form = "absolute-via-proxy"
+                    if w.tr >= 0 and net.transports[w.tr].target != ("proxy.test", 3128):
+                        v("proxy-bypassed", f"connect_tcp{net.transports[w.tr].target}", ctx)
                 cnt["body_bytes_checked"] += len(body)
                 if len(origin.anomalies) > before_anom:
                     v("wire-malformed:" + origin.anomalies[before_anom]["kind"], repr(origin.anomalies[before_anom]), ctx)
